@@ -24,7 +24,7 @@ StoreProj(S) == {[id |-> o.id, t |-> o.t, n |-> o.n, ver |-> o.ver, ref |-> o.re
 TSubmit ==
   /\ IsEv("Submit")
   /\ LET r == Trace[l] IN
-     /\ Submit(r.d, r.k, r.addFails)
+     /\ Submit(r.d, r.k, IF r.addFails THEN "add" ELSE IF r.putFails THEN "put" ELSE "none")
      /\ last'.accepted = r.accepted                 \* the real reply
      /\ QIds(queue') = r.q                           \* the real queue
      /\ {u.id : u \in unpub'} = SetOfSeq(r.unpub)    \* the real unpublished store
@@ -35,10 +35,12 @@ TFlush ==
      /\ Flush(r.fails)
      /\ SetOfSeq(last'.anchored) = SetOfSeq(r.anchored) /\ Len(last'.anchored) = Len(r.anchored)
      /\ QIds(queue') = r.q
+     /\ {u.id : u \in unpub'} = SetOfSeq(r.unpub)    \* what the round left in the unpublished store
 
 TGarbage == IsEv("Garbage") /\ Garbage
 TDup     == IsEv("Dup") /\ Dup
 TUpgrade == IsEv("Upgrade") /\ Upgrade
+TClock   == IsEv("Clock") /\ Clock
 
 TObserve ==
   /\ IsEv("Observe")
@@ -73,8 +75,9 @@ TReset ==
   /\ client' = [d \in Dids |-> [created |-> FALSE, uk |-> 4, rk |-> 1, seq |-> 0, dead |-> FALSE]]
   /\ queue' = <<>> /\ unpub' = {} /\ ledger' = <<>> /\ observed' = 0 /\ store' = {}
   /\ curver' = 0 /\ nsub' = 0 /\ faults' = 0 /\ hist' = <<>> /\ last' = [a |-> "init"] /\ deferredEver' = FALSE
+  /\ late' = FALSE /\ expiredEver' = FALSE
 
-TNext == TSubmit \/ TFlush \/ TGarbage \/ TDup \/ TUpgrade \/ TObserve \/ TResolve \/ TResolveHist \/ TReset
+TNext == TSubmit \/ TFlush \/ TGarbage \/ TDup \/ TUpgrade \/ TClock \/ TObserve \/ TResolve \/ TResolveHist \/ TReset
 TSpec == TInit /\ [][TNext]_tvars
 
 HW == TLCSet(1, IF l > TLCGet(1) THEN l ELSE TLCGet(1))
